@@ -86,8 +86,8 @@ impl Exec {
         match e {
             EOp::TableNew { size } => return self.table_new(c, *size),
             EOp::TableGet { key } => return self.table_get(c, *key),
-            EOp::TableAdd { key } => return self.table_add(c, *key),
-            EOp::TableReplaceIf { key, pred } => return self.table_replace_if(c, *key, *pred),
+            EOp::TableAdd { key, val } => return self.table_add(c, *key, *val),
+            EOp::TableReplaceIf { key, pred, val } => return self.table_replace_if(c, *key, *pred, *val),
             _ => {}
         }
         let armed = self.armed;
@@ -103,7 +103,9 @@ impl Exec {
         match e {
             EOp::Null => return self.engine_null(c, t, top_b, top_p, depth),
             EOp::Descend { mv, dirty } => return self.engine_descend(c, t, top_b, top_p, depth, *mv, *dirty),
-            EOp::TableAddHere { alias } => return self.table_add(c, top_b.get_hash() ^ (*alias)),
+            EOp::TableAddHere { alias } => return self.table_add(c, top_b.get_hash() ^ (*alias), 0),
+            EOp::LibWalk { picks } => return self.lib_walk(top_b, picks),
+            EOp::LibTree => return self.lib_tree(top_b),
             EOp::TableGetHere { alias } => return self.table_get(c, top_b.get_hash() ^ (*alias)),
             _ => {}
         }
@@ -152,9 +154,13 @@ impl Exec {
             }
             EOp::RemoveMove(mv) => {
                 if let Some(g) = task.gen.as_mut() {
-                    // removals are "beforehand": only before the first next()
-                    if g.model.yielded > 0 || g.model.nexts_since_mask > 0 {
+                    // removals are "beforehand": on a fresh generator or between passes (the current mask
+                    // exhausted), never in the middle of a pass
+                    if g.model.nexts_since_mask > 0 && !g.model.exhausted {
                         g.model.out_of_contract = true;
+                    }
+                    if g.model.yielded > 0 || g.model.masks_set > 0 {
+                        stats.cnt("reach.removal_between_passes");
                     }
                     let ret = g.gen.remove_move(lib_mv(*mv));
                     let _ = ret; // observed, not asserted (the statement is silent)
@@ -182,8 +188,11 @@ impl Exec {
             }
             EOp::RemoveMask(bb) => {
                 if let Some(g) = task.gen.as_mut() {
-                    if g.model.yielded > 0 || g.model.nexts_since_mask > 0 {
+                    if g.model.nexts_since_mask > 0 && !g.model.exhausted {
                         g.model.out_of_contract = true;
+                    }
+                    if g.model.yielded > 0 || g.model.masks_set > 0 {
+                        stats.cnt("reach.removal_between_passes");
                     }
                     g.gen.remove_mask(lib_bb(*bb));
                     g.model.had_removal = true;
@@ -429,6 +438,70 @@ impl Exec {
         Ok(Flow::Go)
     }
 
+
+    /// C05 on the LIBRARY's own generated moves (the property says "generated moves"): a walk of
+    /// `picks.len()` plies in which ply i plays the (picks[i] mod n)-th move the library generates.
+    /// No reference-model position is needed: validity is judged on the library board itself.
+    fn lib_walk(&mut self, start: Board, picks: &[u8]) -> Result<Flow, Violation> {
+        if !self.on(5) {
+            return Ok(Flow::Go);
+        }
+        let mut b = start;
+        let dummy = Pos::empty();
+        for k in picks {
+            let list: Vec<chess::ChessMove> = match guard(|| MoveGen::new_legal(&b).collect()) {
+                Ok(l) => l,
+                Err(e) => return Err(viol("C05", "generated_moves/panic", format!("{} in {}", e, b))),
+            };
+            if list.is_empty() {
+                break;
+            }
+            let m = list[(*k as usize) % list.len()];
+            let nb = match guard(|| b.make_move_new(m)) {
+                Ok(x) => x,
+                Err(e) => return Err(viol("C05", "generated_move_application/panic", format!("{} applying {} in {}", e, m, b))),
+            };
+            self.stats.evals += 1;
+            self.stats.cnt("reach.library_generated_move_followed");
+            if let Err(mut v) = c05_valid(&nb, &dummy) {
+                v.detail = format!("after the generated move {} in {}: {}", m, b, v.detail);
+                return Err(v);
+            }
+            c05_monotone(&b, &nb)?;
+            b = nb;
+        }
+        Ok(Flow::Go)
+    }
+
+    fn lib_tree(&mut self, start: Board) -> Result<Flow, Violation> {
+        if !self.on(5) {
+            return Ok(Flow::Go);
+        }
+        let dummy = Pos::empty();
+        let l1: Vec<chess::ChessMove> = MoveGen::new_legal(&start).collect();
+        for m1 in l1 {
+            let b1 = start.make_move_new(m1);
+            self.stats.evals += 1;
+            if let Err(mut v) = c05_valid(&b1, &dummy) {
+                v.detail = format!("after the generated move {} in {}: {}", m1, start, v.detail);
+                return Err(v);
+            }
+            c05_monotone(&start, &b1)?;
+            let l2: Vec<chess::ChessMove> = MoveGen::new_legal(&b1).collect();
+            for m2 in l2 {
+                let b2 = b1.make_move_new(m2);
+                self.stats.evals += 1;
+                if let Err(mut v) = c05_valid(&b2, &dummy) {
+                    v.detail = format!("after the generated moves {} {} in {}: {}", m1, m2, start, v.detail);
+                    return Err(v);
+                }
+                c05_monotone(&b1, &b2)?;
+            }
+        }
+        self.stats.cnt("reach.full_width_depth2_library_trees");
+        Ok(Flow::Go)
+    }
+
     // ------------------------------------------------------------------------------ C19
 
     fn table_new(&mut self, c: usize, size: u64) -> Result<Flow, Violation> {
@@ -517,12 +590,20 @@ impl Exec {
         Ok(Flow::Go)
     }
 
-    fn table_add(&mut self, c: usize, key: u64) -> Result<Flow, Violation> {
+    fn table_add(&mut self, c: usize, key: u64, val: u8) -> Result<Flow, Violation> {
         self.stamp += 1;
-        let stamp = self.stamp;
+        let mut stamp = self.stamp;
         let armed = self.on(19);
         if let Some((tb, tm)) = self.eng[c].table.as_mut() {
             let st = Self::slot_state(tm, key);
+            match val {
+                1 => {
+                    stamp = tm.slots[(key % tm.size) as usize].1;
+                    self.stats.cnt("reach.write_of_value_equal_to_slot_content");
+                }
+                2 => stamp = TABLE_DEFAULT,
+                _ => {}
+            }
             tb.add(key, stamp);
             let idx = (key % tm.size) as usize;
             if st == 2 {
@@ -545,13 +626,21 @@ impl Exec {
         Ok(Flow::Go)
     }
 
-    fn table_replace_if(&mut self, c: usize, key: u64, pred: u8) -> Result<Flow, Violation> {
+    fn table_replace_if(&mut self, c: usize, key: u64, pred: u8, val: u8) -> Result<Flow, Violation> {
         self.stamp += 1;
-        let stamp = self.stamp;
+        let mut stamp = self.stamp;
         let armed = self.on(19);
         if let Some((tb, tm)) = self.eng[c].table.as_mut() {
             let idx = (key % tm.size) as usize;
             let cur = tm.slots[idx];
+            match val {
+                1 => {
+                    stamp = cur.1;
+                    self.stats.cnt("reach.write_of_value_equal_to_slot_content");
+                }
+                2 => stamp = TABLE_DEFAULT,
+                _ => {}
+            }
             let st = Self::slot_state(tm, key);
             let seen: Cell<Option<u32>> = Cell::new(None);
             let calls: Cell<u32> = Cell::new(0);
@@ -580,7 +669,9 @@ impl Exec {
             if armed {
                 self.stats.evals += 1;
                 self.stats.distinct.push((tm.size.trailing_zeros() as u64) << 8 | st << 4 | 3 | (pred as u64) << 12);
-                if seen.get() != Some(cur.1) {
+                // the predicate, whenever it is consulted, must see the slot's current value (an implementation
+                // that can decide without consulting it is judged by the resulting slot content below)
+                if seen.get().is_some() && seen.get() != Some(cur.1) {
                     return Err(viol(
                         "C19",
                         "replace_if/predicate_saw_wrong_value",
